@@ -27,6 +27,9 @@ VARIANTS = {
     "noasm": ("gcc", ["-O2", "-g", "-DZSTD_DISABLE_ASM=1", "-DDYNAMIC_BMI2=0"]),
     "hufx1": ("gcc", ["-O2", "-g", "-DHUF_FORCE_DECOMPRESS_X1=1", "-DZSTD_FORCE_DECOMPRESS_SEQUENCES_SHORT=1"]),
     "hufx2": ("gcc", ["-O2", "-g", "-DHUF_FORCE_DECOMPRESS_X2=1", "-DZSTD_FORCE_DECOMPRESS_SEQUENCES_LONG=1"]),
+    "seqlong": ("gcc", ["-O2", "-g", "-DZSTD_FORCE_DECOMPRESS_SEQUENCES_LONG=1"]),
+    "x2": ("gcc", ["-O2", "-g", "-DHUF_FORCE_DECOMPRESS_X2=1"]),
+    "seqlongsan": ("clang-14", ["-O1", "-g", "-fsanitize=address,undefined", "-fno-sanitize-recover=all", "-fno-omit-frame-pointer", "-DZSTD_FORCE_DECOMPRESS_SEQUENCES_LONG=1"]),
 }
 COMMON_DEFS = ["-DZSTD_MULTITHREAD", "-DZSTD_LEGACY_SUPPORT=5", "-D" + GUARD,
                "-DZSTD_STATIC_LINKING_ONLY", "-DZDICT_STATIC_LINKING_ONLY", "-DXXH_NAMESPACE=ZSTD_"]
